@@ -20,7 +20,7 @@ import (
 const addrA, addrB = "127.0.0.1:1001", "127.0.0.1:1002"
 
 type params struct {
-	kind   string // burst | two-senders | both-ways | ask | idle-gap
+	kind   string // burst | two-senders | first-contact | both-ways | ask | idle-gap
 	n      int
 	size   int    // payload size
 	chunks string // all | small
@@ -55,6 +55,12 @@ type got struct {
 func scenario(p params, bounds []int) *vexp.Scenario {
 	cfg := vsys.CoarseSends(400000)
 	cfg.SwitchOnNet = true
+	if p.kind == "first-contact" {
+		// two actors use the remote address for the first time at the same moment: the lazily built
+		// per-address mailbox / connection is shared state of package remoting, so its lock and atomic
+		// operations are switch points here (fine granularity for remoting, message granularity elsewhere)
+		cfg.FinePkgs = []string{"vivid/internal/remoting."}
+	}
 	return &vexp.Scenario{
 		Name:   p.name(),
 		Family: p.kind,
@@ -147,7 +153,7 @@ func scenario(p params, bounds []int) *vexp.Scenario {
 			switch p.kind {
 			case "burst":
 				wa.Sys.Tell(wa.Ref("/s1"), vsys.Msg{ID: "go"})
-			case "two-senders":
+			case "two-senders", "first-contact":
 				wa.Sys.Tell(wa.Ref("/s1"), vsys.Msg{ID: "go"})
 				wa.Sys.Tell(wa.Ref("/s2"), vsys.Msg{ID: "go"})
 			case "both-ways":
@@ -234,6 +240,7 @@ func scenario(p params, bounds []int) *vexp.Scenario {
 			}
 			x.Outcome(strings.Join(oc, ",") + "|" + fmt.Sprint(len(atA)) + "|" + strings.Join(replies, ","))
 			x.Logf("B got %v; A got %v; replies %v; net %v", oc, len(atA), replies, nw.Log)
+			vrt.Freeze() // the oracle has been evaluated: tear-down schedules are not explored
 			wa.Sys.Stop()
 			wb.Sys.Stop()
 			vrt.Quiesce()
@@ -254,6 +261,11 @@ func build(tier string) []*vexp.Scenario {
 				out = append(out, scenario(params{"burst", n, size, "small"}, b1))
 			}
 		}
+	}
+	b2 := []int{0, 1, 2}
+	out = append(out, vexp.Split(12, func() *vexp.Scenario { return scenario(params{"first-contact", 2, 10, "all"}, b2) })...)
+	if tier == "thorough" {
+		out = append(out, vexp.Split(16, func() *vexp.Scenario { return scenario(params{"first-contact", 3, 10, "all"}, b2) })...)
 	}
 	for _, k := range []string{"two-senders", "both-ways", "ask", "idle-gap"} {
 		for _, n := range []int{1, 2, 3} {
